@@ -209,7 +209,7 @@ var (
 	pendingMu sync.Mutex
 	pending   = map[string][]string{}
 	cache     = map[string]map[string]Result{}
-	prefetch  = map[string]*sync.Once{"bucket": {}, "mgr": {}, "mgrconc": {}, "mgrburst": {}}
+	prefetch  = map[string]*sync.Once{"bucket": {}, "mgr": {}, "mgrconc": {}, "mgrburst": {}, "mgrsweep": {}}
 )
 
 func rememberInput(driver, in string) {
